@@ -64,6 +64,12 @@ func (n *xNode) render(b *strings.Builder, variant int) {
 	case "c":
 		b.WriteString("<!--" + strings.Join(n.Tx, "") + "-->")
 		return
+	case "d":
+		b.WriteString("<!" + strings.Join(n.Tx, "") + ">")
+		return
+	case "p":
+		b.WriteString("<?" + strings.Join(n.Nm.L, "") + " " + strings.Join(n.Tx, "") + "?>")
+		return
 	}
 	q := `"`
 	if variant == 1 {
@@ -541,4 +547,143 @@ func replayEncv(line []byte, a *Acc) {
 func init() {
 	register("encv", &family{replay: replayEncv, serial: true,
 		rule: "one case = (JSON-shaped Map, entry point Xml / Xml(root) / XmlIndent / AnyXml(+Indent) or AnyXml on a top-level value, empty-element syntax); non-trivial = the encoding has a single root"})
+}
+
+// ---------------------------------------------------------------------------
+// family "seq" (C04): NewMapXmlSeq / MapSeq.Xml / XmlIndent / BeautifyXml / NewMapFormattedXmlSeq
+// ---------------------------------------------------------------------------
+type seqGroup struct {
+	Code string     `json:"code"`
+	R    *tagged.TV `json:"r"`
+	X    string     `json:"x"`
+}
+type seqLine struct {
+	F string     `json:"f"`
+	D *xNode     `json:"d"`
+	G []seqGroup `json:"g"`
+}
+
+var seqLineNo int
+
+func hasMixed(n *xNode) bool {
+	txt, el := false, false
+	for _, c := range n.Ch {
+		if c.K == "t" && strings.TrimSpace(strings.Join(c.Tx, "")) != "" {
+			txt = true
+		}
+		if c.K == "e" {
+			el = true
+			if hasMixed(c) {
+				return true
+			}
+		}
+	}
+	return txt && el
+}
+
+func replaySeq(line []byte, a *Acc) {
+	var l seqLine
+	if err := json.Unmarshal(line, &l); err != nil {
+		panic(err)
+	}
+	seqLineNo++
+	defer func() {
+		mxj.CoerceKeysToSnakeCase(false)
+		mxj.SetGlobalKeyMapPrefix("#")
+		mxj.XMLEscapeChars(false)
+	}()
+	mxj.XMLEscapeChars(true)
+	variant := 0
+	if seqLineNo%2 == 1 {
+		variant = 1 // single quotes, <a></a>, CDATA -- but NO declaration/leading comment (that is the NoRoot case)
+	}
+	var sb strings.Builder
+	l.D.render(&sb, variant)
+	doc := []byte(strings.ReplaceAll(sb.String(), "~", "é"))
+	var pb strings.Builder
+	l.D.render(&pb, 0)
+	plain := pb.String()
+	mixed := "plain"
+	if hasMixed(l.D) {
+		mixed = "mixed"
+	}
+	cases := 0
+	for _, g := range l.G {
+		parts := strings.SplitN(g.Code, "|", 2)
+		mxj.CoerceKeysToSnakeCase(parts[0] == "1")
+		mxj.SetGlobalKeyMapPrefix(parts[1])
+		cases++
+		one := func(sig, detail string) {
+			a.Mis(sig, fmt.Sprintf("options %s, document %s: %s", g.Code, plain, detail), seqLine{F: "seq", D: l.D, G: []seqGroup{g}})
+		}
+		var ms mxj.MapSeq
+		var err error
+		if p := guard(func() {
+			if cases%2 == 0 {
+				ms, err = mxj.NewMapXmlSeq(doc)
+			} else {
+				ms, err = mxj.NewMapXmlSeqReader(hideByteReader{bytes.NewReader(doc)})
+			}
+		}); p != "" {
+			one("seq:decode-panic", p)
+			continue
+		}
+		if err != nil || tagged.CanonGo(map[string]interface{}(ms)) != g.R.Norm() {
+			one("seq:decode:"+mixed, fmt.Sprintf("NewMapXmlSeq(%q) = %s (err %v), specification gives %s", doc, short(tagged.CanonGo(map[string]interface{}(ms))), err, short(g.R.Norm())))
+			continue
+		}
+		var b, bi, bb []byte
+		var e1, e2, e3 error
+		if p := guard(func() { b, e1 = ms.Xml() }); p != "" {
+			one("seq:encode-panic:"+mixed, "MapSeq.Xml: "+p)
+			continue
+		}
+		if e1 != nil || string(b) != subst1(g.X) {
+			one("seq:bytes:"+mixed, fmt.Sprintf("MapSeq.Xml() = %q (err %v), specification gives %q", b, e1, subst1(g.X)))
+			continue
+		}
+		if p := guard(func() { bi, e2 = ms.XmlIndent("", "  "); bb, e3 = mxj.BeautifyXml(doc, "", " ") }); p != "" {
+			one("seq:indent-panic:"+mixed, p)
+			continue
+		}
+		ts, _ := significantTokens(b, false)
+		for i, out := range [][]byte{bi, bb} {
+			name := []string{"MapSeq.XmlIndent", "BeautifyXml"}[i]
+			if e := []error{e2, e3}[i]; e != nil {
+				one("seq:"+name+":error", e.Error())
+				break
+			}
+			ti, terr := significantTokens(out, false)
+			if terr != nil || strings.Join(ti, "\x00") != strings.Join(ts, "\x00") {
+				one("seq:"+name+":differs:"+mixed, fmt.Sprintf("%s = %q is not %q up to inter-element white space (%v)", name, out, b, terr))
+				break
+			}
+		}
+		// the round trip on the real code: decoding the output again gives the same MapSeq
+		ms2, derr := mxj.NewMapXmlSeq(b)
+		if derr != nil || tagged.CanonGo(map[string]interface{}(ms2)) != g.R.Norm() {
+			one("seq:roundtrip:"+mixed, fmt.Sprintf("NewMapXmlSeq(MapSeq.Xml() = %q) = %s (err %v)", b, short(tagged.CanonGo(map[string]interface{}(ms2))), derr))
+			continue
+		}
+		// the formatted decoder on the indented output
+		if !hasMixed(l.D) {
+			ms3, ferr := mxj.NewMapFormattedXmlSeq(bi)
+			if ferr != nil || tagged.CanonGo(map[string]interface{}(ms3)) != g.R.Norm() {
+				one("seq:formatted", fmt.Sprintf("NewMapFormattedXmlSeq(%q) = %s (err %v), expected %s", bi, short(tagged.CanonGo(map[string]interface{}(ms3))), ferr, short(g.R.Norm())))
+			}
+		}
+	}
+	nt := 0
+	if len(l.D.Ch) > 1 || len(l.D.At) > 1 {
+		nt = cases
+	}
+	a.Count(cases, nt)
+	if len(l.D.Ch) > 2 && len(l.D.At) > 0 {
+		a.Sample(map[string]interface{}{"document": plain, "mapseq": l.G[0].R.Norm(), "expected_xml": l.G[0].X})
+	}
+}
+
+func init() {
+	register("seq", &family{replay: replaySeq, serial: true,
+		rule: "one case = (document, snake-case / key-prefix setting): NewMapXmlSeq[Reader] compared with DecodeSeq, MapSeq.Xml byte for byte with EncodeSeq, XmlIndent / BeautifyXml / NewMapFormattedXmlSeq token-equivalent, real round trip; non-trivial = the root has several children or attributes"})
 }
